@@ -1,18 +1,554 @@
-//! C15 — not implemented yet.
+//! C15 — written expressions decode to the same operations, branches and references.
+//!
+//! Expressions are built through every `write::Expression` builder, hosted in DIE
+//! attributes, location lists and CFI instructions, written with `gimli::write`, read back
+//! with `gimli::read` and compared with an expectation derived from the *built* program by
+//! the harness (c15_core.rs): same operations, every branch on the start of the intended
+//! operation, every reference on the entry with the intended identity, the block exactly as
+//! long as its length prefix says; for an evaluable subset the emitted bytecode evaluates
+//! to what a harness stack machine computes from the built program.
 
+#[path = "c15_core.rs"]
+mod xcore;
+#[path = "c15_gen.rs"]
+mod xgen;
+
+use crate::asm::Enc;
 use crate::props::PropInfo;
-use crate::rt::Ctx;
+use crate::rt::{fnv, fnv_add, hex, Ctx, Rng};
+use gimli::constants as dw;
+use serde_json::{json, Value};
+use std::collections::BTreeMap;
+use xcore::*;
+use xgen::*;
 
 pub fn info() -> PropInfo {
     PropInfo {
         id: "C15",
         level: "exploration",
-        rule: "",
-        assumptions: &[],
-        exhaustive_subspaces: &[],
-        must_observe: &[],
+        rule: "Five streams. `single`: complete enumeration of ~640 atoms (every write::Expression builder incl. op(DwOp) for every operand-less opcode and raw(), with boundary operands: constants 31/32/127/128/2^k/u64::MAX, i64 extremes, registers 31/32/127/128/16383/16384/65535, pick 0/1/2/3/255, blocks of 0..129/255/256/16380..16384 bytes, entry_value with nested length 127/128/16383, nesting depth 3, references to the root, earlier, reordered, own, later and nested-later entries and to a second unit) x 4 wrappers (alone; skip forward over it + bra backward to it + skip to the end; the same inside an entry_value; bra backward to the start + skip to the end) x 64 encodings (versions 2-5 x Dwarf32/64 x address sizes 1/2/4/8 x both byte orders), hosted at once in an exprloc attribute, a two-item location list and (reference-free) in CIE and FDE CFI expressions (.debug_frame v1/3/4 and .eh_frame); programs with references must be rejected by the CFI writer; every other case exchanges the two units so that the host unit starts at a non-zero section offset; the unoptimised profile runs a 1/3 slice (chosen by the seed) of this stream in the quick tier and all of it in the thorough tier. `rand`: seeded write::Dwarf objects with 1-3 units of independent encodings, 2-9 entries (base types at the root, nested, after the referring entry), 0-3 exprloc attributes or location lists per entry with 0-12 random operations from all builders, random branch targets (forward, backward, to the end), nested entry_value to depth 3, unit and cross-unit references; 10% of the cases allow forward ULEB references in attributes (writer may refuse). `eval`: seeded programs of an evaluable subset (constants in every encoding incl. raw fixed-size forms, stack operations, arithmetic, comparisons, counted loops with backward bra, forward skip/bra over variable-length snippets, skip to the end, nested entry_value, breg/fbreg/addr/cfa/tls/deref requests) whose emitted bytecode is evaluated with read::Evaluation and compared with a harness stack machine run on the built program. `cfi`: seeded reference-free programs in CfaExpression/Expression/ValExpression instructions, and programs with entry references that must be rejected. `edge`: branch displacements of exactly +32767/+32768/-32768/-32769 bytes and location-list expression sizes 65535/65536 in all 64 encodings. A fraction of the successful cases is written a second time with every expression replaced by Expression::raw(read-back block): the sections must be byte-identical. A case is non-trivial when it contains at least one operation; enumerated cases are distinct by construction (index <-> (atom, wrapper, encoding) bijection), random cases are de-duplicated by a digest of the complete case description.",
+        assumptions: &[
+            "the writer may refuse (Err) a DIE-attribute expression whose ULEB entry reference points to an entry written later (Appendix A.6); if it accepts, the reference must resolve correctly",
+            "Address::Symbol and DebugInfoRef::Symbol operands are not generated (relocation is C18); Expression::op is only given operand-less opcodes, set_target is always called with a target different from the branch, as documented",
+            "the writer may refuse constants that do not fit the address size, const_type blocks > 255 bytes, and DWARF 2 implicit_pointer references that do not fit a 1/2-byte address-sized operand",
+            "which of two equivalent opcodes (DW_OP_* vs DW_OP_GNU_*) is emitted is not part of the property statement; it is recorded as a secondary observation (secondary.opcode_family)",
+            "DW_OP_piece sizes are generated below 2^61 bytes because read::Operation reports the size in bits",
+            "generic values are compared modulo the address size; evaluation requests are answered by the same deterministic environment on both sides",
+        ],
+        exhaustive_subspaces: &["atoms x 4 wrappers x 64 encodings (stream single)", "branch displacement and location-list length limits x 64 encodings (stream edge)"],
+        must_observe: &[
+            "host.attr", "host.loclist", "host.cfi.cie", "host.cfi.fde", "host.cfi.eh", "cfi.ref_rejected", "ops.compared", "branch.forward", "branch.backward", "branch.to_end",
+            "ref.uleb", "ref.fixed", "ref.info", "ref.cross_unit", "ref.after", "write.refused.forward_uleb", "write.refused.too_large", "nested.entry_value", "twin.identical",
+            "eval.compared", "eval.loop", "eval.stack_error", "edge.ok", "edge.refused", "crosshost.bytes_equal", "v2.implicit_pointer", "builder.raw",
+        ],
         run,
     }
 }
 
-pub fn run(_ctx: &mut Ctx) {}
+// ================================================================ comparison helpers
+
+fn classify(e: &X, g: &X) -> &'static str {
+    match (e, g) {
+        (X::Bra(_) | X::Skip(_), _) => "branch",
+        (_, X::Bad(_)) => "reference",
+        (X::EntryValue(a), X::EntryValue(b)) => {
+            if a.len() != b.len() {
+                return "nested.count";
+            }
+            for (x, y) in a.iter().zip(b.iter()) {
+                if x != y {
+                    return classify(x, y);
+                }
+            }
+            "nested"
+        }
+        (
+            X::Deref { .. } | X::RegisterOffset { .. } | X::CallUnit(_) | X::CallInfo(_) | X::VariableValue(_) | X::ImplicitPointer { .. } | X::ParameterRef(_) | X::TypedLiteral { .. } | X::Convert(_) | X::Reinterpret(_),
+            _,
+        ) if std::mem::discriminant(e) == std::mem::discriminant(g) => "reference_or_operand",
+        _ => "operation",
+    }
+}
+
+/// Compare expected and read-back operations; signature `<tag>.<host>.<class>`.
+fn compare_xs(ctx: &mut Ctx, tag: &str, host: &str, expected: &[X], got: &[X], bytes: &[u8], input: &dyn Fn() -> Value) -> bool {
+    ctx.obs("ops.compared");
+    if expected == got {
+        return true;
+    }
+    let class = if expected.len() != got.len() {
+        "count"
+    } else {
+        let mut c = "operation";
+        for (e, g) in expected.iter().zip(got.iter()) {
+            if e != g {
+                c = classify(e, g);
+                break;
+            }
+        }
+        c
+    };
+    let first = expected.iter().zip(got.iter()).position(|(e, g)| e != g).unwrap_or(expected.len().min(got.len()));
+    let what = format!(
+        "{tag}.{host}: operation #{first} differs: built {:?}, read back {:?} ({} built, {} read back; block {})",
+        expected.get(first),
+        got.get(first),
+        expected.len(),
+        got.len(),
+        hex(&bytes[..bytes.len().min(64)])
+    );
+    ctx.fail(&format!("{tag}.{host}.ops.{class}"), &what.chars().take(600).collect::<String>(), input);
+    false
+}
+
+fn obs_program(ctx: &mut Ctx, bs: &[B], host_unit: usize, depth: usize) {
+    for (i, b) in bs.iter().enumerate() {
+        match b {
+            B::Skip(t) | B::Bra(t) => {
+                if *t == bs.len() {
+                    ctx.obs("branch.to_end");
+                } else if *t > i {
+                    ctx.obs("branch.forward");
+                } else {
+                    ctx.obs("branch.backward");
+                }
+            }
+            B::EntryValue(inner) => {
+                ctx.obs("nested.entry_value");
+                ctx.obs_max("entry_value.depth", depth as u64 + 1);
+                obs_program(ctx, inner, host_unit, depth + 1);
+            }
+            B::ConstType(..) | B::RegvalType(..) | B::DerefType(..) | B::XderefType(..) | B::Convert(Some(_)) | B::Reinterpret(Some(_)) => ctx.obs("ref.uleb"),
+            B::Call(_) | B::ParameterRef(_) => ctx.obs("ref.fixed"),
+            B::CallRef(e) | B::VariableValue(e) | B::ImplicitPointer(e, _) => {
+                ctx.obs("ref.info");
+                if e.unit != host_unit {
+                    ctx.obs("ref.cross_unit");
+                }
+            }
+            B::Raw(_) => ctx.obs("builder.raw"),
+            _ => {}
+        }
+    }
+}
+
+// ================================================================ unit host
+
+#[derive(Clone, Copy, PartialEq, Debug)]
+pub enum Expect {
+    /// decided by the licences found in the plan
+    Auto,
+    MustOk,
+    MustErr,
+}
+
+pub struct Opts<'a> {
+    pub tag: &'a str,
+    pub expect: Expect,
+    pub eval: bool,
+    pub twin: bool,
+}
+
+/// Blocks read back: (unit, entry, attribute index, location-list item or usize::MAX) -> bytes
+pub type Blocks = BTreeMap<(usize, usize, usize, usize), Vec<u8>>;
+
+fn licences(ctx: &mut Ctx, plan: &Plan) -> Vec<&'static str> {
+    let mut lic = vec![];
+    for (ui, up) in plan.units.iter().enumerate() {
+        let order = written_order(up);
+        let mut pos = vec![0usize; up.entries.len()];
+        for (k, &e) in order.iter().enumerate() {
+            pos[e] = k;
+        }
+        for (ei, ep) in up.entries.iter().enumerate() {
+            for a in &ep.attrs {
+                let (in_die, progs): (bool, Vec<&Vec<B>>) = match a {
+                    AttrPlan::Expr(b) => (true, vec![b]),
+                    AttrPlan::LocList(l) => (false, l.iter().collect()),
+                    AttrPlan::RawBytes(_) => (true, vec![]),
+                };
+                for bs in progs {
+                    let mut f = Facts::default();
+                    facts(bs, up.enc.addr_mask(), &mut f, 0);
+                    if f.too_large {
+                        lic.push("too_large");
+                    }
+                    for r in f.uleb_refs.iter().chain(f.fixed_refs.iter()) {
+                        if r.unit != ui || r.entry >= up.entries.len() {
+                            ctx.harness_error("C15 generator: unit reference into another unit");
+                        }
+                    }
+                    if in_die && f.uleb_refs.iter().any(|r| r.unit == ui && r.entry < pos.len() && pos[r.entry] > pos[ei]) {
+                        lic.push("forward_uleb");
+                    }
+                    if f.uleb_refs.iter().chain(f.fixed_refs.iter()).chain(f.info_refs.iter()).any(|r| r.unit != ui || (r.entry < pos.len() && pos[r.entry] > pos[ei])) {
+                        ctx.obs("ref.after");
+                    }
+                    if f.has_implicit_pointer && up.enc.version == 2 {
+                        ctx.obs("v2.implicit_pointer");
+                        if up.enc.addr < 4 {
+                            lic.push("small_ref");
+                        }
+                    }
+                    obs_program(ctx, bs, ui, 0);
+                }
+            }
+        }
+    }
+    lic
+}
+
+/// Write a plan, read it back, compare everything.  Returns the read-back blocks of a
+/// successful write.
+pub fn verify_plan(ctx: &mut Ctx, plan: &Plan, o: &Opts<'_>) -> Option<Blocks> {
+    let tag = o.tag;
+    let input = || plan_json(plan);
+    let lic = licences(ctx, plan);
+    let res = ctx.guard(&format!("{tag}.write"), &input, || write_plan(plan))?;
+    let secs = match res {
+        Ok(s) => s,
+        Err(e) => {
+            if e.starts_with("harness") {
+                ctx.harness_error(&format!("C15 {tag}: {e}"));
+                return None;
+            }
+            let permitted = match o.expect {
+                Expect::MustErr => true,
+                Expect::MustOk => false,
+                Expect::Auto => !lic.is_empty(),
+            };
+            if permitted {
+                for l in &lic {
+                    ctx.obs(&format!("write.refused.{l}"));
+                }
+                ctx.obs(&format!("write.err.{}", e.split('(').next().unwrap_or("")));
+                if o.expect == Expect::MustErr {
+                    ctx.obs("edge.refused");
+                }
+            } else {
+                ctx.fail(&format!("{tag}.write.unexpected_error"), &format!("{tag}: write::Dwarf::write failed with {e} on a representable program"), &input);
+            }
+            return None;
+        }
+    };
+    if o.expect == Expect::MustErr {
+        ctx.fail(&format!("{tag}.write.accepted_unrepresentable"), &format!("{tag}: the writer accepted a program that cannot be represented"), &input);
+        return None;
+    }
+    let units = ctx.guard(&format!("{tag}.read"), &input, || read_units(&secs, plan.le))?;
+    let units = match units {
+        Ok(u) => u,
+        Err(e) => {
+            ctx.fail(&format!("{tag}.readback.error"), &format!("{tag}: reading the written sections back failed: {e}"), &input);
+            return None;
+        }
+    };
+    // ---- structure and identities
+    if units.len() != plan.units.len() {
+        ctx.fail(&format!("{tag}.structure"), &format!("{} units written, {} read back", plan.units.len(), units.len()), &input);
+        return None;
+    }
+    let mut ids: BTreeMap<usize, u64> = BTreeMap::new();
+    for (ui, (up, ru)) in plan.units.iter().zip(units.iter()).enumerate() {
+        let e = up.enc.encoding();
+        if ru.enc != e {
+            ctx.fail(&format!("{tag}.structure"), &format!("unit {ui}: encoding {:?} read back as {:?}", e, ru.enc), &input);
+            return None;
+        }
+        let order = written_order(up);
+        if ru.dies.len() != order.len() {
+            ctx.fail(&format!("{tag}.structure"), &format!("unit {ui}: {} entries built, {} read back (an expression block that is longer or shorter than its length prefix derails the entry parser)", order.len(), ru.dies.len()), &input);
+            return None;
+        }
+        for (k, die) in ru.dies.iter().enumerate() {
+            let ei = order[k];
+            let want = identity(ERef { unit: ui, entry: ei });
+            let got = match die.attrs.first() {
+                Some(RAttr::Udata(n, v)) if *n == dw::DW_AT_decl_line.0 => Some(*v),
+                _ => None,
+            };
+            if got != Some(want) || die.tag != up.entries[ei].tag {
+                ctx.fail(
+                    &format!("{tag}.structure"),
+                    &format!("unit {ui}: entry #{k} in written order should be plan entry {ei} (identity {want}, tag {:#x}); read back identity {got:?}, tag {:#x}", up.entries[ei].tag, die.tag),
+                    &input,
+                );
+                return None;
+            }
+            ids.insert(die.abs_off, want);
+        }
+    }
+    // ---- attributes
+    let mut blocks: Blocks = BTreeMap::new();
+    let mut all_ok = true;
+    for (ui, (up, ru)) in plan.units.iter().zip(units.iter()).enumerate() {
+        let order = written_order(up);
+        let res = Resolver { ids: &ids, unit_off: Some(ru.off) };
+        for (k, die) in ru.dies.iter().enumerate() {
+            let ei = order[k];
+            let ep = &up.entries[ei];
+            if die.attrs.len() != 1 + 2 * ep.attrs.len() {
+                ctx.fail(&format!("{tag}.attr_sequence"), &format!("unit {ui} entry {ei}: {} attributes expected, read back {:?}", 1 + 2 * ep.attrs.len(), die.attrs), &input);
+                return None;
+            }
+            for (ai, ap) in ep.attrs.iter().enumerate() {
+                let got = &die.attrs[1 + 2 * ai];
+                let sent = &die.attrs[2 + 2 * ai];
+                let sent_ok = matches!(sent, RAttr::Udata(n, v) if *n == 0x2100 + ai as u16 && *v == sentinel_value(ui, ei, ai));
+                if !sent_ok {
+                    ctx.fail(&format!("{tag}.attr_sequence"), &format!("unit {ui} entry {ei}: the attribute after expression #{ai} should be the sentinel {:#x}; read back {sent:?} (length prefix != emitted length?)", sentinel_value(ui, ei, ai)), &input);
+                    return None;
+                }
+                match (ap, got) {
+                    (AttrPlan::Expr(bs), RAttr::Expr(_, bytes)) => {
+                        ctx.obs("host.attr");
+                        blocks.insert((ui, ei, ai, usize::MAX), bytes.clone());
+                        all_ok &= check_block(ctx, tag, "attr", bs, bytes, plan.le, ru.enc, &res, o.eval, &input);
+                    }
+                    (AttrPlan::RawBytes(b), RAttr::Expr(_, bytes)) => {
+                        if b != bytes {
+                            ctx.fail(&format!("{tag}.raw.bytes"), &format!("Expression::raw({}) was written as {}", hex(b), hex(bytes)), &input);
+                            all_ok = false;
+                        }
+                    }
+                    (AttrPlan::LocList(items), RAttr::LocList(_, got_items)) => {
+                        if items.len() != got_items.len() {
+                            ctx.fail(&format!("{tag}.loclist.items"), &format!("unit {ui} entry {ei}: location list with {} items read back with {} (an expression longer or shorter than its length prefix derails the list parser): {:?}", items.len(), got_items.len(), got_items.iter().map(|(b, e, d)| (b, e, d.len())).collect::<Vec<_>>()), &input);
+                            all_ok = false;
+                            continue;
+                        }
+                        for (j, (bs, (b, e, bytes))) in items.iter().zip(got_items.iter()).enumerate() {
+                            if (*b, *e) != loc_range(j) {
+                                ctx.fail(&format!("{tag}.loclist.items"), &format!("unit {ui} entry {ei}: item {j} should cover {:?}, read back ({b:#x}, {e:#x})", loc_range(j)), &input);
+                                all_ok = false;
+                                continue;
+                            }
+                            ctx.obs("host.loclist");
+                            blocks.insert((ui, ei, ai, j), bytes.clone());
+                            all_ok &= check_block(ctx, tag, "loclist", bs, bytes, plan.le, ru.enc, &res, false, &input);
+                        }
+                    }
+                    (ap, got) => {
+                        ctx.fail(&format!("{tag}.attr_sequence"), &format!("unit {ui} entry {ei} attribute #{ai}: built {}, read back {:?}", match ap { AttrPlan::LocList(_) => "a location list", _ => "an expression" }, got), &input);
+                        all_ok = false;
+                    }
+                }
+            }
+        }
+    }
+    if o.expect == Expect::MustOk && all_ok {
+        ctx.obs("edge.ok");
+    }
+    // ---- twin: the same Dwarf with every expression replaced by raw(read-back block)
+    if o.twin && all_ok {
+        let mut twin = plan.clone();
+        let mut n = 0;
+        for (ui, up) in twin.units.iter_mut().enumerate() {
+            for (ei, ep) in up.entries.iter_mut().enumerate() {
+                for (ai, a) in ep.attrs.iter_mut().enumerate() {
+                    if let AttrPlan::Expr(_) = a {
+                        if let Some(b) = blocks.get(&(ui, ei, ai, usize::MAX)) {
+                            *a = AttrPlan::RawBytes(b.clone());
+                            n += 1;
+                        }
+                    }
+                }
+            }
+        }
+        if n > 0 {
+            let r2 = ctx.guard(&format!("{tag}.twin.write"), &input, || write_plan(&twin))?;
+            match r2 {
+                Ok(s2) => {
+                    if s2.info == secs.info && s2.loc == secs.loc && s2.loclists == secs.loclists && s2.abbrev == secs.abbrev {
+                        ctx.obs("twin.identical");
+                    } else {
+                        let at = s2.info.iter().zip(secs.info.iter()).position(|(a, b)| a != b).unwrap_or(s2.info.len().min(secs.info.len()));
+                        ctx.fail(&format!("{tag}.twin.differs"), &format!("writing the read-back blocks through Expression::raw gives different sections (.debug_info {} vs {} bytes, first difference at {at:#x})", secs.info.len(), s2.info.len()), &input);
+                    }
+                }
+                Err(e) => ctx.fail(&format!("{tag}.twin.error"), &format!("writing the read-back blocks through Expression::raw failed: {e}"), &input),
+            }
+        }
+    }
+    Some(blocks)
+}
+
+/// Decode one read-back block and compare it with the built program.
+#[allow(clippy::too_many_arguments)]
+fn check_block(ctx: &mut Ctx, tag: &str, host: &str, bs: &[B], bytes: &[u8], le: bool, enc: gimli::Encoding, res: &Resolver<'_>, eval: bool, input: &dyn Fn() -> Value) -> bool {
+    let expected = expect(bs, enc.address_size);
+    let d = match ctx.guard(&format!("{tag}.{host}.decode"), input, || decode(bytes, le, enc, res, 0)) {
+        Some(d) => d,
+        None => return false,
+    };
+    let d = match d {
+        Ok(d) => d,
+        Err(e) => {
+            ctx.fail(&format!("{tag}.{host}.decode_error"), &format!("{tag}.{host}: the emitted block {} does not decode: {e}", hex(&bytes[..bytes.len().min(64)])), input);
+            return false;
+        }
+    };
+    let ok = compare_xs(ctx, tag, host, &expected, &d.xs, bytes, input);
+    let mism = opcode_family_mismatches(bytes, &d.starts, enc.version);
+    if mism > 0 {
+        ctx.obs_n("secondary.opcode_family", mism);
+    }
+    if eval && ok {
+        let mut steps = 0;
+        let m = model_eval(&expected, enc.address_size, &mut steps, 0);
+        if m == EvalOut::Unknown {
+            ctx.obs("eval.undecided");
+        } else {
+            let Some(g) = ctx.guard(&format!("{tag}.{host}.evaluate"), input, || gimli_eval(bytes, le, enc, 0)) else { return false };
+            ctx.obs("eval.compared");
+            if m == EvalOut::StackErr {
+                ctx.obs("eval.stack_error");
+            }
+            if bs.iter().enumerate().any(|(i, b)| matches!(b, B::Bra(t) if *t < i)) {
+                ctx.obs("eval.loop");
+            }
+            if m != g {
+                ctx.fail(
+                    &format!("{tag}.{host}.evaluation"),
+                    &format!("evaluating the built program gives {m:?}, evaluating the emitted bytecode {} gives {g:?}", hex(&bytes[..bytes.len().min(80)])),
+                    input,
+                );
+                return false;
+            }
+        }
+    }
+    ok
+}
+
+// ================================================================ CFI host
+
+/// Write a frame table, read it back, compare.  Returns the expression blocks in order.
+pub fn verify_cfi(ctx: &mut Ctx, p: &CfiPlan, ids: Option<&Ids>, must_err: bool, tag: &str) -> Option<Vec<Vec<u8>>> {
+    let input = || cfi_json(p);
+    let res = ctx.guard(&format!("{tag}.cfi.write"), &input, || write_cfi(p, ids))?;
+    let bytes = match res {
+        Ok(b) => b,
+        Err(e) => {
+            if e.starts_with("harness") {
+                ctx.harness_error(&format!("C15 {tag}: {e}"));
+            } else if must_err {
+                ctx.obs("cfi.ref_rejected");
+                ctx.obs(&format!("cfi.err.{}", e.split('(').next().unwrap_or("")));
+            } else {
+                let mut lic = false;
+                for i in p.cie.iter().chain(p.fde.iter().map(|(_, i)| i)) {
+                    if let CfiI::CfaExpr(b) | CfiI::Expr(_, b) | CfiI::ValExpr(_, b) = i {
+                        let mut f = Facts::default();
+                        facts(b, p.enc.addr_mask(), &mut f, 0);
+                        lic |= f.too_large;
+                    }
+                }
+                if lic {
+                    ctx.obs("write.refused.too_large");
+                } else {
+                    ctx.fail(&format!("{tag}.cfi.write.unexpected_error"), &format!("{tag}: FrameTable write failed with {e} on a representable, reference-free program"), &input);
+                }
+            }
+            return None;
+        }
+    };
+    if must_err {
+        ctx.fail(&format!("{tag}.cfi.reference_accepted"), &format!("{tag}: a CFI expression with an entry reference was written without error ({} bytes)", bytes.len()), &input);
+        return None;
+    }
+    let entries = ctx.guard(&format!("{tag}.cfi.read"), &input, || read_cfi(&bytes, p))?;
+    let entries = match entries {
+        Ok(e) => e,
+        Err(e) => {
+            ctx.fail(&format!("{tag}.cfi.readback.error"), &format!("{tag}: reading the frame section back failed: {e}; section {}", hex(&bytes[..bytes.len().min(96)])), &input);
+            return None;
+        }
+    };
+    if entries.len() != 2 || !entries[0].is_cie || entries[1].is_cie {
+        ctx.fail(&format!("{tag}.cfi.structure"), &format!("expected one CIE and one FDE, read back {} entries", entries.len()), &input);
+        return None;
+    }
+    let enc = p.encoding();
+    let ids_map = BTreeMap::new();
+    let res = Resolver { ids: &ids_map, unit_off: None };
+    let mut out = vec![];
+    let mut ok = true;
+    let mut walk = |ctx: &mut Ctx, which: &str, want: Vec<(Option<u32>, &CfiI)>, got: &RCfiEntry, out: &mut Vec<Vec<u8>>| -> bool {
+        if got.enc != enc {
+            ctx.fail(&format!("{tag}.cfi.structure"), &format!("{which}: encoding {:?} read back as {:?}", enc, got.enc), &input);
+            return false;
+        }
+        let mut gi = got.instrs.iter();
+        for (adv, w) in want {
+            if let Some(d) = adv {
+                match gi.next() {
+                    Some(RCfi::Advance(x)) if *x == d => {}
+                    other => {
+                        ctx.fail(&format!("{tag}.cfi.sequence"), &format!("{which}: expected advance_loc {d}, read back {other:?} (expression longer or shorter than its length prefix?)"), &input);
+                        return false;
+                    }
+                }
+            }
+            let g = gi.next();
+            let matched = match (w, g) {
+                (CfiI::Sentinel(a, b), Some(RCfi::Sentinel(x, y))) => a == x && b == y,
+                (CfiI::CfaExpr(bs), Some(RCfi::CfaExpr(bytes))) => {
+                    out.push(bytes.clone());
+                    check_block(ctx, tag, "cfi", bs, bytes, p.le, enc, &res, false, &input)
+                }
+                (CfiI::Expr(r, bs), Some(RCfi::Expr(x, bytes))) if r == x => {
+                    out.push(bytes.clone());
+                    check_block(ctx, tag, "cfi", bs, bytes, p.le, enc, &res, false, &input)
+                }
+                (CfiI::ValExpr(r, bs), Some(RCfi::ValExpr(x, bytes))) if r == x => {
+                    out.push(bytes.clone());
+                    check_block(ctx, tag, "cfi", bs, bytes, p.le, enc, &res, false, &input)
+                }
+                _ => {
+                    ctx.fail(&format!("{tag}.cfi.sequence"), &format!("{which}: built {w:?}, read back {g:?} (expression longer or shorter than its length prefix?)").chars().take(500).collect::<String>(), &input);
+                    return false;
+                }
+            };
+            if !matched {
+                return false;
+            }
+        }
+        for rest in gi {
+            if *rest != RCfi::Nop {
+                ctx.fail(&format!("{tag}.cfi.sequence"), &format!("{which}: extra instruction {rest:?} after the built ones"), &input);
+                return false;
+            }
+        }
+        true
+    };
+    let want_cie: Vec<(Option<u32>, &CfiI)> = p.cie.iter().map(|i| (None, i)).collect();
+    ok &= walk(ctx, "CIE", want_cie, &entries[0], &mut out);
+    let mut prev = 0u32;
+    let mut want_fde = vec![];
+    for (o, i) in &p.fde {
+        want_fde.push((if *o != prev { Some(o.wrapping_sub(prev)) } else { None }, i));
+        prev = *o;
+    }
+    ok &= walk(ctx, "FDE", want_fde, &entries[1], &mut out);
+    if ok {
+        if !p.cie.is_empty() {
+            ctx.obs("host.cfi.cie");
+        }
+        if !p.fde.is_empty() {
+            ctx.obs("host.cfi.fde");
+        }
+        if p.eh {
+            ctx.obs("host.cfi.eh");
+        }
+        Some(out)
+    } else {
+        None
+    }
+}
+
+#[path = "c15_streams.rs"]
+mod streams;
+
+pub fn run(ctx: &mut Ctx) {
+    streams::run_all(ctx);
+}
